@@ -28,10 +28,11 @@ import (
 )
 
 // Roles of server keys (abstract key numbers of the Coq case):
-//   0  the honest node under test
-//   1  another honest server ("E"): the deviating peer does NOT hold its private key
-//   2,3 keys the deviating peer holds ("A", "B")
-//   4  a key nobody in the scenario holds
+//
+//	0  the honest node under test
+//	1  another honest server ("E"): the deviating peer does NOT hold its private key
+//	2,3 keys the deviating peer holds ("A", "B")
+//	4  a key nobody in the scenario holds
 const (
 	kHonest = 0
 	kE      = 1
@@ -62,6 +63,11 @@ type sigSpec struct {
 	Nonce  string    `json:"nonce"`  // cur | stale | foreign
 	Over   *nameSpec `json:"over"`   // name covered by the signature (nil = the certificate's CN)
 	How    string    `json:"how"`    // own (peer signs with a key it holds) | oracle (taken from an honest holder's certificate for that nonce)
+	// Bind: which signed-bytes format an "own" signature uses: "" = the format the
+	// code under test uses itself (detected at start), "pinned" = nonce||CN,
+	// "cert" = nonce||CN||public key of this certificate, "other" = ... of the
+	// peer's second TLS key
+	Bind string `json:"bind,omitempty"`
 }
 
 type certSpec struct {
@@ -84,18 +90,20 @@ type rawSpec struct {
 
 // world holds the concrete keys behind the abstract numbers of one case.
 type world struct {
-	suite   suites.Suite
-	sname   string
-	keys    [nKeys]*key.Pair
-	tls     [nTLSKeys]*ecdsa.PrivateKey
-	ca      *ecdsa.PrivateKey
-	nonces  map[string][]byte // cur, stale, foreign
-	oracle  func(signer int, nonce []byte) ([]byte, error)
-	nowBase time.Time
+	suite       suites.Suite
+	sname       string
+	keys        [nKeys]*key.Pair
+	tls         [nTLSKeys]*ecdsa.PrivateKey
+	ca          *ecdsa.PrivateKey
+	nonces      map[string][]byte                              // cur, stale, foreign
+	oracle      func(signer int, nonce []byte) ([]byte, error) // returns the honest holder's certificate (DER)
+	oracleCache map[string][]byte
+	oracleBound bool // the holder's proof covers its certificate key (format of the binding repair)
+	nowBase     time.Time
 }
 
 func newWorld(sname string) *world {
-	w := &world{suite: suites.MustFind(sname), sname: sname, nonces: map[string][]byte{}}
+	w := &world{suite: suites.MustFind(sname), sname: sname, nonces: map[string][]byte{}, oracleCache: map[string][]byte{}}
 	for i := range w.keys {
 		w.keys[i] = key.NewKeyPair(w.suite)
 	}
@@ -144,7 +152,78 @@ func (w *world) name(n nameSpec) string {
 
 var sigOID = network.VerifC08SigOID()
 
-func (w *world) signature(s sigSpec, cn nameSpec) ([]byte, error) {
+// boundFormat: does the code under test sign nonce||CN||certificate key (the
+// binding repair) or nonce||CN (pinned)?  Detected once from a certificate of
+// the real certificate maker.
+var boundFormat = detectFormat()
+
+func detectFormat() bool {
+	suite := suites.MustFind("Ed25519")
+	kp := key.NewKeyPair(suite)
+	si := network.NewServerIdentity(kp.Public, network.NewTLSAddress("127.0.0.1:1"))
+	si.SetPrivate(kp.Private)
+	nonce := network.VerifC08MkNonce(suite)
+	c, err := network.VerifC08HonestCertificate(suite, si, nonce)
+	if err != nil {
+		panic(err)
+	}
+	bound, err := proofFormat(suite, kp.Public, nonce, c.Certificate[0])
+	if err != nil {
+		panic(err)
+	}
+	return bound
+}
+
+// proofFormat extracts the proof from an honest certificate and tells which
+// bytes it covers.
+func proofFormat(suite suites.Suite, pub kyber.Point, nonce []byte, der []byte) (bool, error) {
+	c, err := x509.ParseCertificate(der)
+	if err != nil {
+		return false, err
+	}
+	var sig []byte
+	for _, x := range c.Extensions {
+		if x.Id.Equal(sigOID) {
+			sig = x.Value
+		}
+	}
+	if sig == nil {
+		return false, fmt.Errorf("honest certificate without the signature extension")
+	}
+	cn, err := asn1.Marshal(newStyle(pub))
+	if err != nil {
+		return false, err
+	}
+	msg := append(append([]byte{}, nonce...), cn...)
+	if schnorr.Verify(suite, pub, msg, sig) == nil {
+		return false, nil
+	}
+	if schnorr.Verify(suite, pub, append(msg, c.RawSubjectPublicKeyInfo...), sig) == nil {
+		return true, nil
+	}
+	return false, fmt.Errorf("honest proof covers neither nonce||CN nor nonce||CN||key")
+}
+
+func (w *world) spki(tlskey int) []byte {
+	b, err := x509.MarshalPKIXPublicKey(w.tls[tlskey].Public())
+	if err != nil {
+		panic(err)
+	}
+	return b
+}
+
+// bindOf resolves the format of an "own" signature.
+func bindOf(s sigSpec) string {
+	if s.Bind == "" {
+		if boundFormat {
+			return "cert"
+		}
+		return "pinned"
+	}
+	return s.Bind
+}
+
+func (w *world) signature(s sigSpec, cn nameSpec, tlskey int) ([]byte, error) {
 	switch s.Kind {
 	case "none":
 		return nil, nil
@@ -166,18 +245,42 @@ func (w *world) signature(s sigSpec, cn nameSpec) ([]byte, error) {
 		return nil, fmt.Errorf("no nonce %q", s.Nonce)
 	}
 	if s.How == "oracle" {
-		return w.oracle(s.Signer, nonce)
+		// one request per (holder, nonce): the proof can be copied into any number of certificates
+		ck := fmt.Sprintf("%d/%x", s.Signer, nonce)
+		if sig, ok := w.oracleCache[ck]; ok {
+			return sig, nil
+		}
+		der, err := w.oracle(s.Signer, nonce)
+		if err != nil {
+			return nil, err
+		}
+		bound, err := proofFormat(w.suite, w.keys[s.Signer].Public, nonce, der)
+		if err != nil {
+			return nil, err
+		}
+		w.oracleBound = bound
+		sig, err := extractSig(der)
+		if err == nil {
+			w.oracleCache[ck] = sig
+		}
+		return sig, err
 	}
 	der, err := asn1.Marshal(w.name(over))
 	if err != nil {
 		return nil, err
 	}
 	msg := append(append([]byte{}, nonce...), der...)
+	switch bindOf(s) {
+	case "cert":
+		msg = append(msg, w.spki(tlskey)...)
+	case "other":
+		msg = append(msg, w.spki(1)...)
+	}
 	return schnorr.Sign(w.suite, w.keys[s.Signer].Private, msg)
 }
 
 func (w *world) buildCert(cs *certSpec) ([]byte, error) {
-	sig, err := w.signature(cs.Sig, cs.CN)
+	sig, err := w.signature(cs.Sig, cs.CN, cs.TLSKey)
 	if err != nil {
 		return nil, err
 	}
@@ -300,7 +403,11 @@ func nonceNum(s string) int {
 	panic("bad nonce " + s)
 }
 
-func coqSig(s sigSpec, cn nameSpec) string {
+// abstract number of "the honest holder's certificate key" (no certificate of
+// the peer ever carries it)
+const honestTLSKey = 3
+
+func coqSig(s sigSpec, cn nameSpec, tlskey int, oracleBound bool) string {
 	switch s.Kind {
 	case "none":
 		return "None"
@@ -313,14 +420,26 @@ func coqSig(s sigSpec, cn nameSpec) string {
 	if s.Over != nil {
 		over = *s.Over
 	}
+	tk := "None"
 	if s.How == "oracle" {
 		// what an honest holder signs: the nonce it is given and its own new-style name
+		// (and, with the binding repair, its own certificate key)
 		over = nameSpec{Style: "new", Key: s.Signer}
+		if oracleBound {
+			tk = fmt.Sprintf("(Some %d)", honestTLSKey)
+		}
+	} else {
+		switch bindOf(s) {
+		case "cert":
+			tk = fmt.Sprintf("(Some %d)", tlskey)
+		case "other":
+			tk = "(Some 1)"
+		}
 	}
-	return fmt.Sprintf("(Some (SigBy %d %d %s None))", s.Signer, nonceNum(s.Nonce), coqName(over))
+	return fmt.Sprintf("(Some (SigBy %d %d %s %s))", s.Signer, nonceNum(s.Nonce), coqName(over), tk)
 }
 
-func coqCert(c *certSpec) string {
+func coqCert(c *certSpec, oracleBound bool) string {
 	var us []string
 	for _, u := range c.URIs {
 		us = append(us, fmt.Sprintf("URI %s %s %s", lib.Bool(u.Scheme == "onet-pubkey"), lib.Bool(u.Svc == ""), coqName(u.Name)))
@@ -335,11 +454,11 @@ func coqCert(c *certSpec) string {
 		signer = "SgCA"
 	}
 	eku := c.EKU == "both" || c.EKU == "server" || c.EKU == "any" || c.EKU == "none"
-	return fmt.Sprintf("(mkcert %s %s %s %d %s (%d)%%Z (%d)%%Z %s %s)", coqName(c.CN), lib.List(us), coqSig(c.Sig, c.CN),
+	return fmt.Sprintf("(mkcert %s %s %s %d %s (%d)%%Z (%d)%%Z %s %s)", coqName(c.CN), lib.List(us), coqSig(c.Sig, c.CN, c.TLSKey, oracleBound),
 		c.TLSKey, signer, c.NotBefore, c.NotAfter, lib.Bool(eku), lib.Bool(c.Crit))
 }
 
-func coqChain(raws []rawSpec) string {
+func coqChain(raws []rawSpec, oracleBound bool) string {
 	var rs []string
 	for _, r := range raws {
 		switch r.Kind {
@@ -348,7 +467,7 @@ func coqChain(raws []rawSpec) string {
 		case "two":
 			rs = append(rs, "RawMany")
 		default:
-			rs = append(rs, "RawOne "+coqCert(r.Cert))
+			rs = append(rs, "RawOne "+coqCert(r.Cert, oracleBound))
 		}
 	}
 	return lib.List(rs)
